@@ -10,6 +10,7 @@ EXPLANATION = ("C14: pipe callbacks are invoked only from nni_pipe_run_cb, behin
                "through dialer_connect_start; every non-terminal connect failure without a waiting user restarts the timer and "
                "the timer callback reconnects; listeners keep accepting (C11.R4)."
                " Also: s_want_evs is recomputed on every registration change (R7) and the redial back-off is clamped after every growth (R8).")
+EXPLANATION += " Round 3: an operation taken from another endpoint's list is not completed with a code that ends a redial loop (R9)."
 
 
 def rule_r1(ctx):
